@@ -840,6 +840,9 @@ class RZILTransformer(Transformer):
             a = self.promotion_cast(a)
             b = self.promotion_cast(b)
             a, b = self.cast_operands(a=a, b=b, immutable_a=False)
+        elif a and b:
+            # Shifts: the result has the promoted type of the left operand (C11 6.5.7).
+            a = self.promotion_cast(a)
         v = BitOp(name, a, b, op_type)
         return self.add_op(v)
 
